@@ -443,3 +443,267 @@ Proof.
   destruct (Z.leb_spec (Mod w (S k) / 2) (Mod w (S k) - 1 - uval w a)),
            (Z.leb_spec (Mod w (S k) / 2) (uval w a)); cbn [b2z]; lia.
 Qed.
+
+(* ================= loops ================= *)
+
+Lemma add_loop_spec w : 0 <= w -> forall n a b c, wf w n a -> wf w n b ->
+  let '(r, f) := add_loop w a b c in
+  wf w n r /\ uval w r + Mod w n * b2z f = uval w a + uval w b + b2z c.
+Proof.
+  intros Hw. induction n as [|n IH]; intros a b c Ha Hb.
+  - apply wf_inv_0 in Ha, Hb; subst. cbn [add_loop uval]. rewrite Mod_0.
+    split; [apply wf_nil | lia].
+  - destruct (wf_inv_S _ _ _ Ha) as (x & a' & -> & Hx & Ha').
+    destruct (wf_inv_S _ _ _ Hb) as (y & b' & -> & Hy & Hb').
+    cbn [add_loop].
+    pose proof (carrying_add_spec w x y c Hw Hx Hy) as Hc.
+    destruct (carrying_add w x y c) as [s c']. destruct Hc as [Hs He].
+    specialize (IH a' b' c' Ha' Hb').
+    destruct (add_loop w a' b' c') as [r cf]. destruct IH as [Hr Hv].
+    split; [apply wf_cons; auto|].
+    cbn [uval]. rewrite Mod_S by lia.
+    assert (B w * (uval w r + Mod w n * b2z cf) = B w * (uval w a' + uval w b' + b2z c')) by (f_equal; exact Hv).
+    lia.
+Qed.
+
+Lemma sub_loop_spec w : 0 <= w -> forall n a b c, wf w n a -> wf w n b ->
+  let '(r, f) := sub_loop w a b c in
+  wf w n r /\ uval w r - Mod w n * b2z f = uval w a - uval w b - b2z c.
+Proof.
+  intros Hw. induction n as [|n IH]; intros a b c Ha Hb.
+  - apply wf_inv_0 in Ha, Hb; subst. cbn [sub_loop uval]. rewrite Mod_0.
+    split; [apply wf_nil | lia].
+  - destruct (wf_inv_S _ _ _ Ha) as (x & a' & -> & Hx & Ha').
+    destruct (wf_inv_S _ _ _ Hb) as (y & b' & -> & Hy & Hb').
+    cbn [sub_loop].
+    pose proof (borrowing_sub_spec w x y c Hw Hx Hy) as Hc.
+    destruct (borrowing_sub w x y c) as [s c']. destruct Hc as [Hs He].
+    specialize (IH a' b' c' Ha' Hb').
+    destruct (sub_loop w a' b' c') as [r cf]. destruct IH as [Hr Hv].
+    split; [apply wf_cons; auto|].
+    cbn [uval]. rewrite Mod_S by lia.
+    assert (B w * (uval w r - Mod w n * b2z cf) = B w * (uval w a' - uval w b' - b2z c')) by (f_equal; exact Hv).
+    lia.
+Qed.
+
+Lemma b2z_range c : 0 <= b2z c <= 1.
+Proof. destruct c; cbn; lia. Qed.
+
+(* residue form *)
+Lemma add_loop_mod w n a b c : 0 <= w -> wf w n a -> wf w n b ->
+  let '(r, f) := add_loop w a b c in
+  wf w n r /\ uval w r = (uval w a + uval w b + b2z c) mod Mod w n /\
+  f = (Mod w n <=? uval w a + uval w b + b2z c).
+Proof.
+  intros Hw Ha Hb. pose proof (add_loop_spec w Hw n a b c Ha Hb) as H.
+  destruct (add_loop w a b c) as [r f]. destruct H as [Hr He].
+  split; [exact Hr|].
+  apply carry_out; [apply Mod_pos; auto | apply uval_bounds; auto | exact He].
+Qed.
+
+Lemma sub_loop_mod w n a b c : 0 <= w -> wf w n a -> wf w n b ->
+  let '(r, f) := sub_loop w a b c in
+  wf w n r /\ uval w r = (uval w a - uval w b - b2z c) mod Mod w n /\
+  f = (uval w a - uval w b - b2z c <? 0).
+Proof.
+  intros Hw Ha Hb. pose proof (sub_loop_spec w Hw n a b c Ha Hb) as H.
+  destruct (sub_loop w a b c) as [r f]. destruct H as [Hr He].
+  split; [exact Hr|].
+  apply borrow_out; [apply Mod_pos; auto | apply uval_bounds; auto | exact He].
+Qed.
+
+Lemma iadd_loop_cons2 w x x' a y y' b c :
+  iadd_loop w (x :: x' :: a) (y :: y' :: b) c =
+  let '(s, c') := carrying_add w x y c in
+  let '(r, o) := iadd_loop w (x' :: a) (y' :: b) c' in (s :: r, o).
+Proof. reflexivity. Qed.
+
+Lemma isub_loop_cons2 w x x' a y y' b c :
+  isub_loop w (x :: x' :: a) (y :: y' :: b) c =
+  let '(s, c') := borrowing_sub w x y c in
+  let '(r, o) := isub_loop w (x' :: a) (y' :: b) c' in (s :: r, o).
+Proof. reflexivity. Qed.
+
+Lemma iadd_loop_spec w : 0 < w -> forall k a b c, wf w (S k) a -> wf w (S k) b ->
+  let '(r, o) := iadd_loop w a b c in
+  wf w (S k) r /\
+  sval w r = wrapS (Mod w (S k)) (sval w a + sval w b + b2z c) /\
+  o = negb (inS (Mod w (S k)) (sval w a + sval w b + b2z c)).
+Proof.
+  intros Hw. induction k as [|k IH]; intros a b c Ha Hb.
+  - destruct (wf_inv_S _ _ _ Ha) as (x & a' & -> & Hx & Ha').
+    destruct (wf_inv_S _ _ _ Hb) as (y & b' & -> & Hy & Hb').
+    apply wf_inv_0 in Ha', Hb'; subst. cbn [iadd_loop].
+    rewrite carrying_add_signed_spec by (auto using sd_range).
+    rewrite (sval_single w x), (sval_single w y), Mod_1 by lia.
+    split; [|split; [|reflexivity]].
+    + apply wf_cons; split; [|apply wf_nil]. unfold ud, digit_ok. apply Z.mod_pos_bound, B_pos; lia.
+    + rewrite sval_single_ud by auto. apply wrapS_id; [apply B_pos; lia | apply Bw_even; auto|].
+      apply wrapS_range; [apply B_pos; lia | apply Bw_even; auto].
+  - destruct (wf_inv_S _ _ _ Ha) as (x & a' & -> & Hx & Ha').
+    destruct (wf_inv_S _ _ _ Hb) as (y & b' & -> & Hy & Hb').
+    destruct (wf_inv_S _ _ _ Ha') as (x' & a'' & -> & _ & _).
+    destruct (wf_inv_S _ _ _ Hb') as (y' & b'' & -> & _ & _).
+    rewrite iadd_loop_cons2.
+    pose proof (carrying_add_spec w x y c ltac:(lia) Hx Hy) as Hc.
+    destruct (carrying_add w x y c) as [s c']. destruct Hc as [Hs He].
+    specialize (IH _ _ c' Ha' Hb').
+    destruct (iadd_loop w (x' :: a'') (y' :: b'') c') as [r o]. destruct IH as (Hr & Hv & Ho).
+    rewrite (sval_cons w k x), (sval_cons w k y) by assumption.
+    rewrite (Mod_S w (S k)) by lia.
+    set (SA := sval w (x' :: a'')) in *. set (SB := sval w (y' :: b'')) in *.
+    replace (x + B w * SA + (y + B w * SB) + b2z c) with (s + B w * (SA + SB + b2z c')) by lia.
+    pose proof (B_pos w ltac:(lia)). pose proof (Mod_pos w (S k) ltac:(lia)). pose proof (Mod_even' w k Hw).
+    rewrite wrapS_low, inS_low by (assumption || exact Hs).
+    split; [apply wf_cons; auto|]. split; [|exact Ho].
+    rewrite (sval_cons w k s) by assumption. rewrite Hv. reflexivity.
+Qed.
+
+Lemma isub_loop_spec w : 0 < w -> forall k a b c, wf w (S k) a -> wf w (S k) b ->
+  let '(r, o) := isub_loop w a b c in
+  wf w (S k) r /\
+  sval w r = wrapS (Mod w (S k)) (sval w a - sval w b - b2z c) /\
+  o = negb (inS (Mod w (S k)) (sval w a - sval w b - b2z c)).
+Proof.
+  intros Hw. induction k as [|k IH]; intros a b c Ha Hb.
+  - destruct (wf_inv_S _ _ _ Ha) as (x & a' & -> & Hx & Ha').
+    destruct (wf_inv_S _ _ _ Hb) as (y & b' & -> & Hy & Hb').
+    apply wf_inv_0 in Ha', Hb'; subst. cbn [isub_loop].
+    rewrite borrowing_sub_signed_spec by (auto using sd_range).
+    rewrite (sval_single w x), (sval_single w y), Mod_1 by lia.
+    split; [|split; [|reflexivity]].
+    + apply wf_cons; split; [|apply wf_nil]. unfold ud, digit_ok. apply Z.mod_pos_bound, B_pos; lia.
+    + rewrite sval_single_ud by auto. apply wrapS_id; [apply B_pos; lia | apply Bw_even; auto|].
+      apply wrapS_range; [apply B_pos; lia | apply Bw_even; auto].
+  - destruct (wf_inv_S _ _ _ Ha) as (x & a' & -> & Hx & Ha').
+    destruct (wf_inv_S _ _ _ Hb) as (y & b' & -> & Hy & Hb').
+    destruct (wf_inv_S _ _ _ Ha') as (x' & a'' & -> & _ & _).
+    destruct (wf_inv_S _ _ _ Hb') as (y' & b'' & -> & _ & _).
+    rewrite isub_loop_cons2.
+    pose proof (borrowing_sub_spec w x y c ltac:(lia) Hx Hy) as Hc.
+    destruct (borrowing_sub w x y c) as [s c']. destruct Hc as [Hs He].
+    specialize (IH _ _ c' Ha' Hb').
+    destruct (isub_loop w (x' :: a'') (y' :: b'') c') as [r o]. destruct IH as (Hr & Hv & Ho).
+    rewrite (sval_cons w k x), (sval_cons w k y) by assumption.
+    rewrite (Mod_S w (S k)) by lia.
+    set (SA := sval w (x' :: a'')) in *. set (SB := sval w (y' :: b'')) in *.
+    replace (x + B w * SA - (y + B w * SB) - b2z c) with (s + B w * (SA - SB - b2z c')) by lia.
+    pose proof (B_pos w ltac:(lia)). pose proof (Mod_pos w (S k) ltac:(lia)). pose proof (Mod_even' w k Hw).
+    rewrite wrapS_low, inS_low by (assumption || exact Hs).
+    split; [apply wf_cons; auto|]. split; [|exact Ho].
+    rewrite (sval_cons w k s) by assumption. rewrite Hv. reflexivity.
+Qed.
+
+Lemma sd_not w d : 0 < w -> digit_ok w d -> sd w (u_not w d) = -1 - sd w d.
+Proof.
+  intros Hw Hd. unfold sd, u_not, to_signed, digit_ok in *. pose proof (Bw_even w Hw).
+  destruct (Z.ltb_spec (B w - 1 - d) (B w / 2)), (Z.ltb_spec d (B w / 2)); lia.
+Qed.
+
+Lemma ineg_loop_cons2 w d d' r :
+  ineg_loop w (d :: d' :: r) =
+  let '(s, o) := u_ovf_add w (u_not w d) 1 in
+  if o then let '(r', f) := ineg_loop w (d' :: r) in (s :: r', f)
+  else (s :: bitnot w (d' :: r), false).
+Proof. reflexivity. Qed.
+
+Lemma ineg_loop_spec w : 0 < w -> forall k a, wf w (S k) a ->
+  let '(r, o) := ineg_loop w a in
+  wf w (S k) r /\
+  sval w r = wrapS (Mod w (S k)) (- sval w a) /\
+  o = negb (inS (Mod w (S k)) (- sval w a)).
+Proof.
+  intros Hw. induction k as [|k IH]; intros a Ha.
+  - destruct (wf_inv_S _ _ _ Ha) as (x & a' & -> & Hx & Ha').
+    apply wf_inv_0 in Ha'; subst. cbn [ineg_loop]. unfold s_ovf_add.
+    rewrite sd_not by assumption. rewrite (sval_single w x), Mod_1 by lia.
+    replace (-1 - sd w x + 1) with (- sd w x) by ring.
+    split; [|split; [|reflexivity]].
+    + apply wf_cons; split; [|apply wf_nil]. unfold ud, digit_ok. apply Z.mod_pos_bound, B_pos; lia.
+    + rewrite sval_single_ud by auto. apply wrapS_id; [apply B_pos; lia | apply Bw_even; auto|].
+      apply wrapS_range; [apply B_pos; lia | apply Bw_even; auto].
+  - destruct (wf_inv_S _ _ _ Ha) as (x & a' & -> & Hx & Ha').
+    destruct (wf_inv_S _ _ _ Ha') as (x' & a'' & -> & _ & _).
+    rewrite ineg_loop_cons2. unfold u_ovf_add, u_not.
+    rewrite (sval_cons w k x) by assumption. rewrite (Mod_S w (S k)) by lia.
+    pose proof (B_pos w ltac:(lia)) as HB. pose proof (Mod_pos w (S k) ltac:(lia)) as HM.
+    pose proof (Mod_even' w k Hw) as HE.
+    set (SA := sval w (x' :: a'')) in *.
+    unfold digit_ok in Hx.
+    destruct (Z.leb_spec (B w) (B w - 1 - x + 1)) as [L|L].
+    + assert (x = 0) by lia. subst x.
+      replace (B w - 1 - 0 + 1) with (B w) by ring. rewrite Z.mod_same by lia.
+      specialize (IH _ Ha'). destruct (ineg_loop w (x' :: a'')) as [r' f]. destruct IH as (Hr & Hv & Ho).
+      replace (- (0 + B w * SA)) with (0 + B w * (- SA)) by ring.
+      rewrite wrapS_low, inS_low by (assumption || lia).
+      split; [apply wf_cons; split; [unfold digit_ok; lia | exact Hr]|]. split; [|exact Ho].
+      rewrite (sval_cons w k 0) by (assumption || unfold digit_ok; lia). rewrite Hv. reflexivity.
+    + rewrite Z.mod_small by lia.
+      pose proof (bitnot_wf w _ _ ltac:(lia) Ha') as Hn.
+      pose proof (sval_range w (S k) _ Hw ltac:(lia) Ha') as HR. fold SA in HR.
+      replace (- (x + B w * SA)) with ((B w - 1 - x + 1) + B w * (-1 - SA)) by ring.
+      rewrite wrapS_low, inS_low by (assumption || lia).
+      split; [apply wf_cons; split; [unfold digit_ok; lia | exact Hn]|]. split.
+      * rewrite (sval_cons w k) by (assumption || unfold digit_ok; lia).
+        rewrite (bitnot_sval w k) by assumption. fold SA.
+        rewrite wrapS_id by (assumption || lia). reflexivity.
+      * symmetry. apply negb_inS_false; [assumption | lia].
+Qed.
+
+(* ================= comparison ================= *)
+
+Lemma ucmp_spec w : 0 <= w -> forall n a b, wf w n a -> wf w n b ->
+  ucmp a b = (uval w a ?= uval w b).
+Proof.
+  intros Hw. induction n as [|n IH]; intros a b Ha Hb.
+  - apply wf_inv_0 in Ha, Hb; subst. reflexivity.
+  - destruct (wf_inv_S _ _ _ Ha) as (x & a' & -> & Hx & Ha').
+    destruct (wf_inv_S _ _ _ Hb) as (y & b' & -> & Hy & Hb').
+    cbn [ucmp uval]. rewrite (IH _ _ Ha' Hb').
+    pose proof (B_pos w Hw). unfold digit_ok in *.
+    destruct (Z.compare_spec (uval w a') (uval w b')) as [E|L|G].
+    + rewrite E. destruct (Z.ltb_spec y x); [|destruct (Z.ltb_spec x y)]; symmetry.
+      * apply Z.compare_gt_iff; lia.
+      * apply Z.compare_lt_iff; lia.
+      * apply Z.compare_eq_iff; lia.
+    + symmetry. apply Z.compare_lt_iff. nia.
+    + symmetry. apply Z.compare_gt_iff. nia.
+Qed.
+
+Lemma sd_inj w x y : 0 < w -> digit_ok w x -> digit_ok w y -> sd w x = sd w y -> x = y.
+Proof.
+  intros Hw Hx Hy. unfold sd, to_signed, digit_ok in *. pose proof (Bw_even w Hw).
+  destruct (Z.ltb_spec x (B w / 2)), (Z.ltb_spec y (B w / 2)); lia.
+Qed.
+
+Lemma icmp_spec w k a b : 0 < w -> wf w (S k) a -> wf w (S k) b ->
+  icmp w a b = (sval w a ?= sval w b).
+Proof.
+  intros Hw Ha Hb.
+  destruct (top_decomp w Hw k a Ha) as (la & Hla & Hta & Hua & Hsa).
+  destruct (top_decomp w Hw k b Hb) as (lb & Hlb & Htb & Hub & Hsb).
+  unfold icmp. rewrite Hsa, Hsb.
+  pose proof (Mod_pos w k ltac:(lia)).
+  destruct (Z.eqb_spec (signed_digit w a) (signed_digit w b)) as [E|NE].
+  - rewrite (ucmp_spec w ltac:(lia) (S k) a b Ha Hb). rewrite Hua, Hub.
+    unfold signed_digit in E. apply sd_inj in E; try assumption. rewrite E.
+    unfold signed_digit. rewrite E.
+    rewrite !(Z.add_comm _ (Mod w k * _)). rewrite !Z.add_compare_mono_l. reflexivity.
+  - set (s1 := signed_digit w a) in *. set (s2 := signed_digit w b) in *.
+    destruct (Z.ltb_spec s2 s1); symmetry.
+    + apply Z.compare_gt_iff. nia.
+    + apply Z.compare_lt_iff. nia.
+Qed.
+
+Lemma is_zero_spec w : 0 <= w -> forall n a, wf w n a -> is_zero a = (uval w a =? 0).
+Proof.
+  intros Hw. induction n as [|n IH]; intros a Ha.
+  - apply wf_inv_0 in Ha; subst. reflexivity.
+  - destruct (wf_inv_S _ _ _ Ha) as (x & a' & -> & Hx & Ha').
+    cbn [is_zero uval]. pose proof (uval_bounds w _ _ Hw Ha'). pose proof (B_pos w Hw).
+    unfold digit_ok in Hx.
+    destruct (Z.eqb_spec x 0).
+    + rewrite (IH _ Ha'). subst x.
+      destruct (Z.eqb_spec (uval w a') 0), (Z.eqb_spec (0 + B w * uval w a') 0); try reflexivity; nia.
+    + symmetry. apply Z.eqb_neq. nia.
+Qed.
